@@ -238,13 +238,6 @@ structure Event where
   args : Bool            -- were the extra positional/keyword arguments passed along?
   deriving Inhabited
 
-/-- `Slice.start/stop/step` as the properties compute them (a 1-slice has start = stop) -/
-def sliceParts : List Expr → List Expr
-  | [] => []
-  | [a] => [a, a]
-  | [a, b] => [a, b]
-  | a :: b :: c :: _ => [a, b, c]
-
 /-- visit, children (unless `visit` returned False), post_visit -/
 def wrapWalk (skip : List String) (args : Bool) (e : Expr) (inner : Except DepErr (List Event)) :
     Except DepErr (List Event) :=
@@ -312,35 +305,23 @@ def walk (skip : List String) (args : Bool) : Expr → Except DepErr (List Event
   | .tuple cs => wrapWalk skip args (.tuple cs) (walkL skip args cs)
   | .list cs => wrapWalk skip args (.list cs) (walkL skip args cs)
   | .slice cs => wrapWalk skip args (.slice cs) (walkSlice skip args cs)
-  | .subst c vs xs =>
-      -- map_substitution calls `visit(expr)` WITHOUT the extra arguments
-      if skip.contains "Substitution" then pure [⟨false, .subst c vs xs, false⟩]
-      else do
-        let x ← walk skip args c
-        let y ← walkL skip args xs
-        pure (⟨false, .subst c vs xs, false⟩ :: (x ++ y) ++ [⟨true, .subst c vs xs, args⟩])
+  | .subst c vs xs => wrapWalk skip args (.subst c vs xs) (do
+      let x ← walk skip args c
+      let y ← walkL skip args xs
+      pure (x ++ y))
 def walkL (skip : List String) (args : Bool) : List Expr → Except DepErr (List Event)
   | [] => pure []
   | c :: cs => do
       let x ← walk skip args c
       let y ← walkL skip args cs
       pure (x ++ y)
-/-- `map_slice` goes through `Slice.start/stop/step`: a one-element slice has start = stop, so its
-only child is walked twice; `None` parts are skipped; parts beyond the third are ignored -/
+/-- `map_slice`: every child that is not `None`, once, in order -/
 def walkSlice (skip : List String) (args : Bool) : List Expr → Except DepErr (List Event)
   | [] => pure []
-  | [a] => do
-      let x ← walkOpt skip args a
-      pure (x ++ x)
-  | [a, b] => do
-      let x ← walkOpt skip args a
-      let y ← walkOpt skip args b
+  | c :: cs => do
+      let x ← walkOpt skip args c
+      let y ← walkSlice skip args cs
       pure (x ++ y)
-  | a :: b :: c :: _ => do
-      let x ← walkOpt skip args a
-      let y ← walkOpt skip args b
-      let z ← walkOpt skip args c
-      pure (x ++ y ++ z)
 def walkOpt (skip : List String) (args : Bool) : Expr → Except DepErr (List Event)
   | .const .none => pure []
   | e => walk skip args e
